@@ -160,18 +160,30 @@ def preeditLoop (compInput fullInput : Bytes) (caretPos : Nat) : List Seg → Pr
   | [g], acc => preeditStep compInput fullInput caretPos acc g true
   | g :: rest, acc => preeditLoop compInput fullInput caretPos rest (preeditStep compInput fullInput caretPos acc g false)
 
-/-- Composition::GetPreedit(full_input, caret_pos, caret) — `softCursor` is the caret string -/
-def Comp.getPreedit (c : Comp) (fullInput : Bytes) (caretPos : Nat) (softCursor : Bytes) : Preedit :=
-  let acc := preeditLoop c.input fullInput caretPos c.segs {}
-  let acc := if acc.stop < c.input.length then
-      { acc with text := acc.text ++ c.input.drop acc.stop, stop := c.input.length } else acc
-  let cp := match acc.caretPos with | some p => p | none => acc.text.length
-  let text := if acc.stop < fullInput.length then acc.text ++ fullInput.drop acc.stop else acc.text
-  let prompt := softCursor ++ (match c.segs.getLast? with | none => [] | some b => b.prompt)
+/-- `if (preedit.caret_pos == npos) preedit.caret_pos = preedit.text.length()` -/
+def PreeditAcc.cursor (a : PreeditAcc) : Nat := match a.caretPos with | some p => p | none => a.text.length
+
+/-- `end < full_input.length() ? text + full_input.substr(end) : text` -/
+def PreeditAcc.fullText (a : PreeditAcc) (fullInput : Bytes) : Bytes :=
+  if a.stop < fullInput.length then a.text ++ fullInput.drop a.stop else a.text
+
+/-- the part of Composition::GetPreedit after the loop: the rest of the composition's input, the default
+cursor, the rest of the raw input, and the insertion of soft cursor + prompt at the cursor -/
+def preeditFinish (acc : PreeditAcc) (compInput fullInput prompt : Bytes) : Preedit :=
+  let acc := if acc.stop < compInput.length then
+      { acc with text := acc.text ++ compInput.drop acc.stop, stop := compInput.length } else acc
+  let cp := acc.cursor
+  let text := acc.fullText fullInput
   if prompt ≠ [] then
     let ss := if cp < acc.selStart then acc.selStart + prompt.length else acc.selStart
     let se := if cp < acc.selEnd then acc.selEnd + prompt.length else acc.selEnd
     { text := text.take cp ++ prompt ++ text.drop cp, caretPos := cp, selStart := ss, selEnd := se }
   else { text := text, caretPos := cp, selStart := acc.selStart, selEnd := acc.selEnd }
+
+def Comp.prompt (c : Comp) : Bytes := match c.segs.getLast? with | none => [] | some b => b.prompt
+
+/-- Composition::GetPreedit(full_input, caret_pos, caret) — `softCursor` is the caret string -/
+def Comp.getPreedit (c : Comp) (fullInput : Bytes) (caretPos : Nat) (softCursor : Bytes) : Preedit :=
+  preeditFinish (preeditLoop c.input fullInput caretPos c.segs {}) c.input fullInput (softCursor ++ c.prompt)
 
 end RimeModel.Session
